@@ -37,7 +37,7 @@ func main() {
 	r.Assume("domain exclusions (each replayed from a pinned witness): REVOKE ALL PRIVILEGES, GRANT OPTION only for accounts with global grants only; a database-level REVOKE that leaves no database-level privilege only for accounts without table/routine grants in that database; REVOKE ALL ON <level> only where the level holds no GRANT OPTION; no standing trigger in the fixture (DELETE without WHERE)")
 	r.Assume("session identities are the account's literal host, or a non-local host for '%' accounts; accounts use hosts '%' and 'localhost' only (host-pattern overlap is C40's subject)")
 
-	nHist := r.N(220, 5000)
+	nHist := r.N(220, 4000)
 	steps := 15
 	r.Parallel("history", nHist, func(i int) { runHistory(r, i, steps) })
 	pinned(r)
